@@ -9,6 +9,10 @@ D=/tmp/mt.$$
 mkdir -p $D /tmp/mutant-iso
 LOG=/tmp/mutant-iso/$NAME.$ID.log
 git -C /repo worktree add -q --detach $D/repo HEAD || exit 2
+# seeded/<dir>/pre lists repairs (mutants/fix-*.patch) to be undone first: the seeded defect needs the unrepaired code to be reachable
+if [ -f "$(dirname $P)/pre" ]; then
+  for pp in $(cat "$(dirname $P)/pre"); do ( cd $D/repo && git apply -R /verif/$pp ) || echo "pre-patch $pp does not apply"; done
+fi
 ( cd $D/repo && git apply $REV "$P" ) || { echo "patch does not apply"; git -C /repo worktree remove --force $D/repo; rm -rf $D; exit 2; }
 rsync -a --exclude .git --exclude .build --exclude .work --exclude evidence --exclude replays --exclude seeded --exclude mutants /verif/ $D/verif/
 ( cd $D/verif && VERIF_REPO=$D/repo ./check $ID $TIER > $LOG 2>&1; echo "exit=$?" >> $LOG )
